@@ -150,7 +150,10 @@ def main():
                     [m.surface() for m in t3.tokenize(rng.choice(texts))]
                 elif k == 7:
                     tok.tokenize(rng.choice(texts), out=reuse, mode=modes[rng.choice("ABC")])
-                    tok.tokenize("", out=reuse)
+                    tok.tokenize(rng.choice(texts), out=reuse)
+                    r0 = tok.tokenize("", out=reuse)
+                    if len(r0) != 0 or len(reuse) != 0:
+                        mismatch("history", "tokenize('') into a reused list leaves %d morphemes in it" % len(reuse), {})
                 else:
                     d.lookup(rng.choice(texts)[:3], out=reuse)
             except (KeyboardInterrupt, SystemExit):
